@@ -66,6 +66,7 @@ func c03(c *core.Check) {
 	c03URLForms(c)
 	c03StyleAttrFresh(c)
 	c03ImportantTrivia(c)
+	c03NestedListOwnFlags(c)
 	p := c.Prog
 	c.Explain = "Structural necessary conditions of the cascade order, decided on the type-checked source: the origin/importance table folded over its finite domain, weight.Less and Specificity.Less folded over every ordering of the compared components, every write into a cascaded style guarded by that comparison, the style-attribute weight above every selector weight, sheet order and origins, and media-filtered rules reached only through a true media test. Does not decide that selectors match (C05) nor source order inside one sheet."
 	rArgs := c.Rule("R8", "no call passes two same-typed arguments under each other's parameter names (swapped arguments): every pair of arguments named after the callee's parameters is aligned with them", 7)
